@@ -68,6 +68,7 @@ func (t *Thread) GetAttr(name string) (Object, bool) {
 }
 
 func (t *Thread) Wait(ctx context.Context) Object {
+	verifPoint(4, (<-chan bool)(t.done), ctx)
 	select {
 	case <-ctx.Done():
 		return Errorf("wait error: %s", ctx.Err())
@@ -87,7 +88,10 @@ func NewThread(ctx context.Context, callable Callable, args []Object) *Thread {
 		done:     make(chan bool),
 	}
 
+	verifGo(0)
 	go func() {
+		verifGo(1)
+		defer verifGo(2)
 		defer func() {
 			if r := recover(); r != nil {
 				t.result = NewError(fmt.Errorf("panic: %v", r))
@@ -96,6 +100,7 @@ func NewThread(ctx context.Context, callable Callable, args []Object) *Thread {
 		}()
 		t.result = callable.Call(ctx, args...)
 	}()
+	verifGo(3)
 
 	return t
 }
